@@ -218,6 +218,10 @@ func runC05RoundTrip(ctx *Ctx, idx int) {
 	dir := directedKeySets()
 	if idx < len(dir) {
 		ks = dir[idx]
+	} else if idx < len(dir)+3 {
+		// streams of several hundred KiB (whatever a writer may do differently
+		// for big messages - chunks, parallel encoding - must still be stable)
+		ks = genBig(r, []int{0, 5, 2}[idx-len(dir)])
 	} else if idx%5 == 0 {
 		// low-entropy label sets: many equally frequent bitmaps (tie-breaks in the short table)
 		ks = KeySet{"repeats", genRepeats(r, r.Range(30, 500), r.Range(2, 14), r.Range(2, 4))}
@@ -227,6 +231,9 @@ func runC05RoundTrip(ctx *Ctx, idx int) {
 	keys := ks.Keys
 	n := len(keys)
 	vals := genVals(r, pickKind(r), n, r.Intn(5))
+	if n > 20000 {
+		vals = genVals(r, []string{"i64", "i32", "str16"}[idx%3], n, 0)
+	}
 	lc := &LCase{Family: ks.Family, Keys: keys, Vals: vals, R: r}
 	ctx.Eval()
 	ctx.Count("family:"+ks.Family, 1)
@@ -243,7 +250,11 @@ func runC05RoundTrip(ctx *Ctx, idx int) {
 	opts := allOptSets()
 	for oi, o := range opts {
 		ctx.Beat()
-		if (oi+idx)%2 == 1 && !lc.Exh && n > 300 {
+		if n > 20000 {
+			if oi != 8 && oi != 9 {
+				continue // very large sets: the default and the complete option set
+			}
+		} else if (oi+idx)%2 == 1 && !lc.Exh && n > 300 {
 			continue // large sets: half of the option sets per case, rotating
 		}
 		viol := func(clause string, ex map[string]interface{}) {
